@@ -237,6 +237,22 @@ CHECKS = {
         note="Bucket parameters set to burst 5, 2/s in the harness (the daemon enforces minima of 10 and 1/s when loading its "
              "configuration; the limiter object is the same).",
         ref="DESIGN.md 4 C14"),
+    "C20": dict(
+        module="KMAudit",
+        technique="TLA+ models of the bounded-buffer fan-out and of the history recorder (TLC + negative controls) ; real "
+                  "subscribers on the CONNECT endpoint with certificates through every issuing path ; TLC-simulated recorder "
+                  "histories in-package ; TLC trace monitor",
+        text="KMAudit part 1 models Sign -> Publish -> Respond with per-subscriber bounded buffers (invariants: responded "
+             "certificates were published, in order, a subscriber that keeps up misses nothing, Publish is always enabled); "
+             "part 2 models record / time passing / save / load / expire with retention. On the implementation a draining "
+             "and a stalled subscriber attach to the notifier's real CONNECT endpoint while certificates are issued through "
+             "ssh, ssh-with-Ed25519-CA, x509, kubernetes, automation, refresh and cloud-role paths and logins are made; event "
+             "bytes are matched to response bytes, order and latency with the stalled subscriber are checked. Recorder "
+             "histories (save at every prefix, retention edges, TLC-simulated sequences) run through the package's own "
+             "functions compiled in-package, and the monitor compares the observed lists with the specification's.",
+        note="'No later than the response' is observed as arrival within one second at a draining subscriber; the monitord "
+             "network client is not driven (the recorder functions are).",
+        ref="DESIGN.md 4 C20"),
 }
 PENDING_REASON = "check not built yet in this session (specification module planned in DESIGN.md section 4); not claimed until its check runs clean on the unchanged tree"
 ALL = ["C%02d" % i for i in range(1, 21)]
